@@ -139,12 +139,17 @@ def run(ctx, which="C02"):
 
     quick = ctx.tier == "quick"
     side = os.path.join(core.BUILD, "gen_point_interval.json")
-    if not (os.path.exists(side) and os.path.exists(os.path.join(core.BUILD, "x02g", "driver"))):
-        ctx.notes.append("mc_gen: generated file / driver missing (translator or extraction failed): "
-                         "generated-code correspondence skipped")
+    if not os.path.exists(os.path.join(core.BUILD, "x02g", "driver")):
+        ctx.notes.append("mc_gen: no driver of the generated definitions (extraction failed): generated-code "
+                         "correspondence skipped")
         return
     model = core.Model("x02g")
-    roles = json.load(open(side))
+    roles = {}
+    if os.path.exists(side):
+        roles = json.load(open(side))
+    else:
+        ctx.notes.append("mc_gen: the translation failed: function-level comparison against the LAST generated "
+                         "definitions only, statement-level correspondence skipped")
     rng = ctx.rng
 
     # ---------------- function level: point_interval on an exhaustive small domain
